@@ -50,7 +50,7 @@ class KmatrixSimple(KmatrixSplitLSParticle):
 
     .. math::
 
-        n_{ii} = q_i^l B'_l(q_i, 1/d, d)
+        n_{ii} = (q_i d)^l B'_l(q_i, 1/d, d)
 
     phase space factor
 
